@@ -519,6 +519,12 @@ class Scheduler:
                 # the running thread neither reached a scheduling point nor finished: it is blocked on something the
                 # scheduler does not own (a real lock held by a paused thread, I/O); this exploration is inconclusive
                 self._abort = True
+                # let every paused thread run on (point() raises _Abort in it, which unwinds `with lock:` blocks and frees
+                # whatever the blocked thread is waiting for), then give them a moment to finish
+                for i in range(n):
+                    self._sems[i].release()
+                for t_ in ths:
+                    t_.join(5)
                 raise SchedulerStuck(f'thread {nxt} blocked outside the scheduler at step {steps}')
         if errs:
             self._abort = True
